@@ -326,8 +326,26 @@ func main() {
 	})
 	nontrivial += int64(1100*(2*len(badBytes)+6) + 10*(4+2))
 
+	// (7) every Unicode code point (0 .. 0x10FFFF, surrogates as their 3-byte forms excluded) as a
+	// one-character string and as the third character of "12?4": only the ten ASCII digits are digits -
+	// not the decimal digits of other scripts (category Nd), not full-width or mathematical ones
+	{
+		const chunk = 0x1000
+		vk.Parallel(0x110000/chunk, func(k int) {
+			for cp := k * chunk; cp < (k+1)*chunk; cp++ {
+				if cp >= 0xd800 && cp <= 0xdfff {
+					continue
+				}
+				c := string(rune(cp))
+				checkEncode(r, c)
+				checkEncode(r, "12"+c+"4")
+			}
+		})
+		nontrivial += 2 * (0x110000 - 0x800)
+	}
+
 	r.Distinct(nontrivial)
-	r.Rule(fmt.Sprintf("many bad symbols at once: 1..1100 and 10 counts around 2^12 / 2^16 / 2^17 / 2^20 bad bytes (5 values) or characters (3), alone and alternating with valid ones; long inputs: digit strings / BCD slices of 20 lengths from 255 to 2097153 digits, all valid and with one bad symbol at the first, middle and last position; histories (consecutive calls): every ordered pair of byte values at every position of slices of length 1..9 and 16 (two base patterns) for Decode, every ordered pair of symbols at every position of digit strings of length 1..17 for Encode - counted as evaluations only; every string of length 0..%d over {0..9,'a','é'}; every byte slice of length 0..2 and (thorough: all; quick: one byte fixed to a boundary value) length 3; every single (position,symbol) substitution into digit strings of length 1..32 and BCD slices of length 1..16; distinct = distinct inputs by construction", maxLen))
+	r.Rule(fmt.Sprintf("every Unicode code point alone and embedded in a digit string; many bad symbols at once: 1..1100 and 10 counts around 2^12 / 2^16 / 2^17 / 2^20 bad bytes (5 values) or characters (3), alone and alternating with valid ones; long inputs: digit strings / BCD slices of 20 lengths from 255 to 2097153 digits, all valid and with one bad symbol at the first, middle and last position; histories (consecutive calls): every ordered pair of byte values at every position of slices of length 1..9 and 16 (two base patterns) for Decode, every ordered pair of symbols at every position of digit strings of length 1..17 for Encode - counted as evaluations only; every string of length 0..%d over {0..9,'a','é'}; every byte slice of length 0..2 and (thorough: all; quick: one byte fixed to a boundary value) length 3; every single (position,symbol) substitution into digit strings of length 1..32 and BCD slices of length 1..16; distinct = distinct inputs by construction", maxLen))
 	r.Sample(map[string]any{"encode": "12a", "reference": "error"})
 	r.Sample(map[string]any{"encode": "123", "reference": "0123"})
 	r.Sample(map[string]any{"decode": "129a", "reference": "error"})
